@@ -150,38 +150,38 @@ type tp struct {
 }
 
 type gReader struct {
-	k          int
-	clientID   string
-	r          *kafka.Reader
-	readMsgAPI bool // uses ReadMessage (commit inside the call)
-	syncCommit bool
-	closed     bool
-	crashed    bool
-	appDone    bool
-	handed     map[tp][]int64 // offsets handed to the application, in order
-	lastHanded map[tp]int64
-	commitReq  map[tp]int64 // highest offset passed to CommitMessages (or handed by ReadMessage)
-	inCall     bool         // a ReadMessage call is in progress
-	failedCalls int           // ReadMessage calls that failed: each may have dropped (and possibly committed) one message
-	resumes    map[tp][]int64 // resume points served by the coordinator to this reader (-1 resolved later)
-	resumeLEO  map[tp][]int64
-	closeInv, closeRet int
+	k                      int
+	clientID               string
+	r                      *kafka.Reader
+	readMsgAPI             bool // uses ReadMessage (commit inside the call)
+	syncCommit             bool
+	closed                 bool
+	crashed                bool
+	appDone                bool
+	handed                 map[tp][]int64 // offsets handed to the application, in order
+	lastHanded             map[tp]int64
+	commitReq              map[tp]int64   // highest offset passed to CommitMessages (or handed by ReadMessage)
+	inCall                 bool           // a ReadMessage call is in progress
+	failedCalls            int            // ReadMessage calls that failed: each may have dropped (and possibly committed) one message
+	resumes                map[tp][]int64 // resume points served by the coordinator to this reader (-1 resolved later)
+	resumeLEO              map[tp][]int64
+	closeInv, closeRet     int
 	closeInvAt, closeRetAt time.Duration
 }
 
 type groupState struct {
-	s       *Sim
-	cl      *Cluster
-	g       *Group
-	readers []*gReader
-	everHanded map[tp]map[int64]bool
+	s           *Sim
+	cl          *Cluster
+	g           *Group
+	readers     []*gReader
+	everHanded  map[tp]map[int64]bool
 	seenCommits int
-	startFirst bool
-	quiesceAt  time.Duration
-	lowest     map[tp]int64
-	deferred   []Commit
-	censusOK   bool
-	closeBound time.Duration
+	startFirst  bool
+	quiesceAt   time.Duration
+	lowest      map[tp]int64
+	deferred    []Commit
+	censusOK    bool
+	closeBound  time.Duration
 }
 
 func (st *groupState) readerOfMember(mid string) *gReader {
@@ -452,28 +452,28 @@ func groupScenario(s *Sim, params map[string]string) {
 	st.closeBound = (5*time.Second + rebalance) + (5*time.Second + session) + 10*time.Second + 10*time.Second + 5*time.Second
 	mkReader := func(k int) *gReader {
 		gr := &gReader{k: k, clientID: fmt.Sprintf("reader%d", k), handed: map[tp][]int64{}, lastHanded: map[tp]int64{}, commitReq: map[tp]int64{},
-			 resumes: map[tp][]int64{}, resumeLEO: map[tp][]int64{}}
+			resumes: map[tp][]int64{}, resumeLEO: map[tp][]int64{}}
 		gr.readMsgAPI = t.Intn("cfg", 3) == 0
 		gr.syncCommit = commitInterval == 0
 		cfg := kafka.ReaderConfig{
-			Brokers:           []string{cl.Brokers[0].Addr()},
-			GroupID:           "grp",
-			Dialer:            &kafka.Dialer{DialFunc: n.Dialer(gr.clientID), ClientID: gr.clientID, Timeout: 3 * time.Second},
-			MinBytes:          1,
-			MaxBytes:          1 << 20,
-			MaxWait:           Pick(t, "cfg", 200*time.Millisecond, 2*time.Second),
-			QueueCapacity:     Pick(t, "cfg", 1, 5, 100),
-			HeartbeatInterval: hb,
-			SessionTimeout:    session,
-			RebalanceTimeout:  rebalance,
-			JoinGroupBackoff:  Pick(t, "cfg", 200*time.Millisecond, time.Second),
-			CommitInterval:    commitInterval,
-			StartOffset:       startOffset,
-			GroupBalancers:    balancers,
-			ReadBackoffMin:    10 * time.Millisecond,
-			ReadBackoffMax:    200 * time.Millisecond,
-			MaxAttempts:       3,
-			WatchPartitionChanges: t.Intn("cfg", 3) == 0,
+			Brokers:                []string{cl.Brokers[0].Addr()},
+			GroupID:                "grp",
+			Dialer:                 &kafka.Dialer{DialFunc: n.Dialer(gr.clientID), ClientID: gr.clientID, Timeout: 3 * time.Second},
+			MinBytes:               1,
+			MaxBytes:               1 << 20,
+			MaxWait:                Pick(t, "cfg", 200*time.Millisecond, 2*time.Second),
+			QueueCapacity:          Pick(t, "cfg", 1, 5, 100),
+			HeartbeatInterval:      hb,
+			SessionTimeout:         session,
+			RebalanceTimeout:       rebalance,
+			JoinGroupBackoff:       Pick(t, "cfg", 200*time.Millisecond, time.Second),
+			CommitInterval:         commitInterval,
+			StartOffset:            startOffset,
+			GroupBalancers:         balancers,
+			ReadBackoffMin:         10 * time.Millisecond,
+			ReadBackoffMax:         200 * time.Millisecond,
+			MaxAttempts:            3,
+			WatchPartitionChanges:  t.Intn("cfg", 3) == 0,
 			PartitionWatchInterval: time.Second,
 		}
 		if len(topics) > 1 {
